@@ -12,8 +12,11 @@ from .common import *
 from specs.phases import allowed_dispatch, H_CONN, H_KEX, H_AUTH, H_CHAN
 
 ASSUMPTIONS = [
-    'handler objects (kex, auth, channel) are abstract: process_packet returns an arbitrary value or raises '
-    'PacketDecodeError / ProtocolError; their own role checks are separate contracts',
+    'gate: handler objects (kex, auth, channel) are abstract: process_packet returns an arbitrary value or raises '
+    'PacketDecodeError / ProtocolError; the role / phase checks of the connection-level handlers the gate lets through '
+    'are the contracts of contracts/c06_handlers.py (same property id); the role checks of the kex method handlers '
+    '(kex_dh.py / kex_rsa.py `Unexpected kex ... msg`) and of the auth method handlers (auth.py) are NOT under '
+    'contract here',
     'decrypt_packet / decompress are assumed contracts (return Optional[bytes])',
 ]
 
@@ -35,7 +38,8 @@ def opt_set(c, name, old=True):
     return z3.Not(v.isnone)
 
 
-# supporting class invariants (proved preserved by every writer of the fields, see class_inv specs below)
+# supporting class invariants A1 / A2: assumed here, proved on the writers of _auth / _auth_complete /
+# _recv_encryption in contracts/c06_handlers.py (the list of writers covered and not covered is in ASSUMPTIONS)
 def A1A2(c, old=True):
     g = c.oldv if old else c.newv
     enc = z3.Not(g('_recv_encryption').isnone)
@@ -115,17 +119,13 @@ def unimplemented_only_when_unhandled(c):
     conj = [z3.BoolVal(len(sends) == 1), z3.BoolVal(len(evs) == 1)]
     a = sends[0]['args']
     conj.append(a[0].z == 3)
+    # RFC 4253 11.4: the reply carries the sequence number of the rejected packet
+    from pyvc.builtins_model import be
+    conj.append(z3.BoolVal(len(a) == 2))
+    if len(a) == 2:
+        conj.append(a[1].z == be(z3.IntVal(4), c.old('_recv_seq')))
     conj.append(z3.Not(z3.And(c.old('_strict_kex'), z3.Not(opt_set(c, '_recv_encryption')))))
     return z3.And(conj)
-
-
-def not_allowed_is_fatal(c):
-    """if no handler ran on a normal return, the only legal reason is the ignored first kex packet (RFC 4253 7)"""
-    return z3.BoolVal(True)
-
-
-def raise_protocol_error_post(c):
-    return z3.BoolVal(True)
 
 
 def skip_is_fatal(c):
@@ -142,16 +142,30 @@ def skip_is_fatal(c):
     return z3.BoolVal(True)
 
 
+def handler_records(c):
+    return [x for x in c.new_state.calls if x['key'].endswith('process_packet')]
+
+
 def strict_unknown_is_fatal(c):
     """strict kex before keys: a message no handler knows must not be answered with UNIMPLEMENTED"""
     strict_pre = z3.And(c.old('_strict_kex'), z3.Not(opt_set(c, '_recv_encryption')))
-    if c.raised is None and len(c.events('process_packet')) == 1:
-        res = c.new_state.calls
-        hres = [x for x in res if x['key'].endswith('process_packet')][0]['ret']
+    recs = [x for x in handler_records(c) if x['exc'] is None]
+    if c.raised is None and len(recs) == 1:
+        hres = recs[0]['ret']
         falsy = z3.Not(c.truthy(hres))
         notaw = z3.Not(z3.Function('isawaitable_Any', opaque_sort('Any'), BoolS)(hres.z))
         return z3.Implies(z3.And(strict_pre, falsy, notaw), z3.BoolVal(False))
     return z3.BoolVal(True)
+
+
+def handler_error_is_fatal(c):
+    """a handler that rejects the message (truncated / trailing bytes: PacketDecodeError, or ProtocolError) ends the
+    activation with an exception - the message is never counted as handled - and nothing is sent in reply"""
+    failed = [x for x in handler_records(c) if x['exc'] is not None]
+    if not failed:
+        return z3.BoolVal(True)
+    return z3.BoolVal(c.raised == 'ProtocolError' and not c.calls('send_packet') and
+                      not c.calls('_finish_recv_packet'))
 
 
 def rolled_async(c):
@@ -209,7 +223,8 @@ recv_packet = Spec(
             ('at-most-one-handler', at_most_one_handler),
             ('unimplemented-only-when-unhandled', unimplemented_only_when_unhandled),
             ('skip-is-fatal', skip_is_fatal),
-            ('strict-unknown-is-fatal', strict_unknown_is_fatal)],
+            ('strict-unknown-is-fatal', strict_unknown_is_fatal),
+            ('malformed-message-is-fatal', handler_error_is_fatal)],
     raises={'MACError': True, 'CompressionError': True, 'ProtocolError': True,
             # empty payload (padding only): escapes to _recv_data, which turns it into internal_error()
             'PacketDecodeError': lambda c: z3.BoolVal(len(c.events('process_packet')) == 0)},
